@@ -39,7 +39,7 @@ def run(ctx):
     qk = ctx.quick
     runs = []
     samples = []
-    for i in range(50 if qk else 1500):
+    for i in range(50 if qk else 500):
         n = rng.choice([1, 1, 2, 2, 3, 4, 5])
         r_ = rng.choice([2.0, 3.0, 4.0, 6.0, 10.0, 20.0, 40.0, rng.uniform(1.5, 30)])
         eps = rng.choice([0.1, 0.05, 0.02, 0.2, rng.uniform(0.02, 0.3)])
@@ -81,7 +81,7 @@ def run(ctx):
         m = rng.choice([10, 8, 12]) if n > 1 else 10
         while n * m > 50:
             m -= 1
-        limit = 300 if qk else 1200
+        limit = 300 if qk else 700
         if n == 3:
             eps = max(eps, rng.choice([0.12, 0.2]))
         if n >= 4:
